@@ -116,6 +116,8 @@ def preload(prop):
         pass
     for m in getattr(_load(prop), "PRELOAD", []):
         importlib.import_module(m)
+    if hasattr(_load(prop), "preload_worker"):
+        _load(prop).preload_worker()
     _preloaded = True
 
 
@@ -318,6 +320,20 @@ def main(argv=None):
                     except Exception:
                         pass
                 break
+    # fixed cases (e.g. a pinned corpus): always executed, indices from 10**9
+    fixed = mod.fixed_cases() if hasattr(mod, "fixed_cases") else []
+    for k, fcase in enumerate(fixed):
+        idx = 10 ** 9 + k
+        try:
+            res = exec_case_forked(prop, fcase)
+            results[idx] = {"i": idx, "digest": res["digest"], "key": res["key"], "violations": res["violations"],
+                            "probes": res["probes"], "faults": res["faults"], "nontrivial": bool(res["nontrivial"]),
+                            "sim_time": res["sim_time"], "steps": res["steps"], "keys": res.get("keys"), "units": 1,
+                            "tags": sorted(mod.tags(fcase)), "fixed_case": fcase}
+            for v in results[idx]["violations"]:
+                v["alltags"] = sorted(set(results[idx]["tags"]) | set(v.get("tags", [])))
+        except HarnessError as e:
+            harness_errors.append({"i": idx, "harness_error": str(e)[:2000]})
     batch_wall = time.monotonic() - t0
     order = sorted(results)
 
@@ -346,7 +362,7 @@ def main(argv=None):
                     known_hits[pre["id"]] = known_hits.get(pre["id"], 0) + 1
                     continue
                 # cannot minimise further within budget: report unminimised (still a real violation)
-            case = gen_case(prop, batch_seed, r["i"], args.tier, avoid)
+            case = r["fixed_case"] if "fixed_case" in r else gen_case(prop, batch_seed, r["i"], args.tier, avoid)
             if minimised < min_cap and time.monotonic() <= min_deadline:
                 minimised += 1
                 mcase, spent = minimise(prop, case, oracle, budget=getattr(mod, "MINIMISE_BUDGET", 300),
